@@ -1853,6 +1853,20 @@ impl OverlayFs {
         self.copy_regfile_up(ctx, Arc::clone(&node))
     }
 
+    // Check whether a lower layer of directory `pnode` shows an entry called `name`: the topmost
+    // lower layer that has the name decides (a whiteout there already hides everything below).
+    fn lower_entry_exists(ctx: &Context, pnode: &Arc<OverlayInode>, name: &str) -> Result<bool> {
+        for ri in pnode.real_inodes.lock().unwrap().iter() {
+            if ri.in_upper_layer {
+                continue;
+            }
+            if let Some(child) = ri.lookup_child(ctx, name)? {
+                return Ok(!child.whiteout);
+            }
+        }
+        Ok(false)
+    }
+
     fn do_rm(&self, ctx: &Context, parent: u64, name: &CStr, dir: bool) -> Result<()> {
         if self.upper_layer.is_none() {
             return Err(Error::from_raw_os_error(libc::EROFS));
@@ -1891,7 +1905,10 @@ impl OverlayFs {
         let mut need_whiteout = true;
         let pnode = self.copy_node_up(ctx, Arc::clone(&pnode))?;
 
-        if node.upper_layer_only() {
+        // A non-directory or an opaque directory in the upper layer shadows lower entries of the
+        // same name without keeping their real inodes, so `upper_layer_only()` alone can't tell
+        // that nothing would reappear: also look the name up in the parent's lower layers.
+        if node.upper_layer_only() && !Self::lower_entry_exists(ctx, &pnode, sname.as_str())? {
             need_whiteout = false;
         }
 
